@@ -10,6 +10,7 @@ import hashlib
 import threading
 import json
 import os
+import re
 import shlex
 import shutil
 import subprocess
@@ -418,7 +419,8 @@ class Ctx:
         k = ('obj', arch)
         if k in self._mem:
             return self._mem[k]
-        src = {'x86': 'src/jit_compiler_x86_static.S', 'a64': 'src/jit_compiler_a64_static.S', 'rv64': 'src/jit_compiler_rv64_static.S'}[arch]
+        src = {'x86': 'src/jit_compiler_x86_static.S', 'a64': 'src/jit_compiler_a64_static.S', 'rv64': 'src/jit_compiler_rv64_static.S',
+               'rv64b': 'src/jit_compiler_rv64_static.S', 'rvv': 'src/jit_compiler_rv64_vector_static.S'}[arch]
 
         def build(out):
             o = os.path.join(out, 'static.o')
@@ -432,10 +434,38 @@ class Ctx:
                 must([CLANG, '--target=aarch64-linux-gnu', '-march=armv8-a+crypto', '-c', os.path.join(self.repo, src), '-o', o], 'assemble ' + src)
                 objdump = ['llvm-objdump-14', '-d', '--no-show-raw-insn', o]
                 objdump_raw = ['llvm-objdump-14', '-d', o]
+            elif arch == 'rvv':
+                # clang 14 does not know the Zvkned mnemonics and does not relax an out-of-range conditional branch the way GNU as does: the vector AES
+                # instructions become an opaque 32-bit word each, an out-of-range branch becomes the inverted branch over a jump
+                pre = must([CLANG, '--target=riscv64-linux-gnu', '-march=rv64gcv', '-E', '-I', os.path.join(self.repo, 'src'), os.path.join(self.repo, src)], 'preprocess ' + src).stdout
+                lines = [re.sub(r'^\s*vaes\w+\.v[vs]\s.*$', '\t.word 0x0000000b', ln) for ln in pre.split('\n')]
+                inv = {'beq': 'bne', 'bne': 'beq', 'blt': 'bge', 'bge': 'blt', 'bltu': 'bgeu', 'bgeu': 'bltu'}
+                ps = os.path.join(out, 'pre.s')
+                for attempt in range(8):
+                    with open(ps, 'w') as fh:
+                        fh.write('\n'.join(lines) + '\n')
+                    r = run([CLANG, '--target=riscv64-linux-gnu', '-march=rv64gcv', '-mno-relax', '-c', ps, '-o', o])
+                    if r.returncode == 0:
+                        break
+                    fixed = False
+                    for m in re.finditer(r'pre\.s:(\d+):\d+: error: fixup value out of range', r.stderr):
+                        k = int(m.group(1)) - 1
+                        mm = re.match(r'^(\s*)(\w+)\s+(.*),\s*([\w.$]+)\s*$', lines[k])
+                        if mm and mm.group(2) in inv:
+                            lines[k] = '%s%s %s, 9%d7f\n%sj %s\n9%d7:' % (mm.group(1), inv[mm.group(2)], mm.group(3), attempt, mm.group(1), mm.group(4), attempt)
+                            fixed = True
+                            break
+                    if not fixed:
+                        raise AnalysisBroken('assemble %s: %s' % (src, r.stderr[-400:]))
+                else:
+                    raise AnalysisBroken('assemble %s: branch relaxation did not converge' % src)
+                objdump = ['llvm-objdump-14', '-d', '--mattr=+m,+a,+f,+d,+c,+v', '--no-show-raw-insn', '-M', 'no-aliases', o]
+                objdump_raw = ['llvm-objdump-14', '-d', '--mattr=+m,+a,+f,+d,+c,+v', '-M', 'no-aliases', o]
             else:
-                must([CLANG, '--target=riscv64-linux-gnu', '-march=rv64gc', '-c', os.path.join(self.repo, src), '-o', o], 'assemble ' + src)
-                objdump = ['llvm-objdump-14', '-d', '--mattr=+m,+a,+f,+d,+c', '--no-show-raw-insn', '-M', 'no-aliases', o]
-                objdump_raw = ['llvm-objdump-14', '-d', '--mattr=+m,+a,+f,+d,+c', o]
+                march = 'rv64gc' if arch == 'rv64' else 'rv64gc_zba_zbb'
+                must([CLANG, '--target=riscv64-linux-gnu', '-march=' + march, '-c', os.path.join(self.repo, src), '-o', o], 'assemble ' + src)
+                objdump = ['llvm-objdump-14', '-d', '--mattr=+m,+a,+f,+d,+c' + (',+zba,+zbb' if arch == 'rv64b' else ''), '--no-show-raw-insn', '-M', 'no-aliases', o]
+                objdump_raw = ['llvm-objdump-14', '-d', '--mattr=+m,+a,+f,+d,+c' + (',+zba,+zbb' if arch == 'rv64b' else ''), '-M', 'no-aliases', o]
             nm = must(['nm', '-n', o] if arch == 'x86' else ['llvm-nm-14', '-n', o], 'nm').stdout
             with open(os.path.join(out, 'nm.txt'), 'w') as fh:
                 fh.write(nm)
@@ -454,7 +484,7 @@ class Ctx:
             with open(os.path.join(out, 'reloc.txt'), 'w') as fh:
                 fh.write(rel)
 
-        d = self._stage('obj_' + arch, build)
+        d = self._stage('obj2_' + arch, build)
         from objfacts import ObjFacts
         of = ObjFacts(d, arch)
         self._mem[k] = of
